@@ -366,6 +366,17 @@ class TopoModel(Model):
             # removing links through the topology call - here every link is one created for a connection
             for l_ in sorted(self.t.links.keys())[:2]:
                 ev.append(('remove_link', l_))
+        if exp and 'sw1' in names:
+            # the switch's own service can peer too: with a slice-wide service (which may ALSO be connected to a port of the
+            # switch - then two routes lead from one service to the other) and with a second service of the same switch
+            sw_sv = sorted(nodes['sw1'].network_services.keys())
+            if 'sw1-ns2' not in sw_sv:
+                ev.append(('add_switch_service', 'sw1', 'sw1-ns2'))
+            for s_ in tops[:1]:
+                if 'sw1-ns' in sw_sv:
+                    ev += [('peer', s_, 'sw1-ns'), ('unpeer', s_, 'sw1-ns'), ('unpeer', 'sw1-ns', s_)]
+            if 'sw1-ns' in sw_sv and 'sw1-ns2' in sw_sv:
+                ev += [('peer', 'sw1-ns', 'sw1-ns2'), ('unpeer', 'sw1-ns', 'sw1-ns2'), ('unpeer', 'sw1-ns2', 'sw1-ns')]
         if exp and 's1' in tops and 's2' in tops:
             ev.append(('peer', 's1', 's2'))
             ev.append(('unpeer', 's1', 's2'))
@@ -480,6 +491,10 @@ class TopoModel(Model):
                 b = [i for i in fp if i in swp][:1]
                 if a and b:
                     ev.append(('sub_add_link', 'l1', (('w1', a[0].name), ('sw', b[0].name)), 'Patch'))
+            if 'ls' not in links and [i for i in fp if i in wp]:
+                # a link over a single interface (a stub): accepted by add_link, goes when its interface goes
+                a1 = [i for i in fp if i in wp][-1]
+                ev.append(('sub_add_link', 'ls', ((self.t.get_owner_node(a1).name, a1.name),), 'Patch'))
             if 'l3' not in links and len(fp) >= 3:
                 ev.append(('sub_add_link', 'l3', tuple((self.t.get_owner_node(i).name, i.name) for i in fp[:3]), 'L2Path'))
         for l in sorted(links):
@@ -525,6 +540,8 @@ class TopoModel(Model):
             t.add_node(name=ev[1], site=ev[2], ntype=NodeType[ev[3]], node_id=('id-' + ev[1]) if ev[4] else None)
         elif k == 'add_switch':
             t.add_switch(name=ev[1], site=ev[2], nports=2)
+        elif k == 'add_switch_service':
+            self.node(ev[1]).add_network_service(name=ev[2], nstype=ServiceType.P4)
         elif k == 'add_facility':
             form = ev[3]
             if form == 'kwargs':
@@ -711,6 +728,12 @@ ROOT_SCRIPTS = {
     'R3': [('add_node', 'n1', 'S1', 'VM', False), ('add_node', 'n1-xx', 'S1', 'VM', False),
            ('add_component', 'n1', 'xx-yy', 'SharedNIC_ConnectX_6'), ('add_component', 'n1-xx', 'yy', 'SharedNIC_ConnectX_6'),
            ('add_service', 's1', 'L2Bridge', (('n1', 'xx-yy-p1'), ('n1-xx', 'yy-p1')))],
+    # R4: a switch whose own service peers with a slice-wide service that is also connected to a port of the switch, and
+    # with a second service of the same switch
+    'R4': [('add_node', 'n1', 'S1', 'VM', False), ('add_component', 'n1', 'c1', 'SmartNIC_ConnectX_6'),
+           ('add_switch', 'sw1', 'S1'), ('add_switch_service', 'sw1', 'sw1-ns2'),
+           ('add_service', 's1', 'L2Bridge', (('n1', 'c1-p1'), ('sw1', 'p1'))),
+           ('peer', 's1', 'sw1-ns'), ('peer', 'sw1-ns', 'sw1-ns2')],
     'S0': [],
     'S1': [('sub_add_server', 'w1'), ('sub_add_switch', 'sw'), ('sub_add_nic', 'w1', 'nic1'),
            ('sub_add_link', 'l1', (('w1', 'nic1-p1'), ('sw', 'sw-p1')), 'Patch')],
@@ -1209,6 +1232,15 @@ def fail_events(model: TopoModel):
         ev.append(('fail', 'type-of-another-kind', n0))
         if free:
             ev.append(('fail', 'link-non-interface', n0, model._pref(free[0])))
+            ev.append(('fail', 'link-same-interface-twice', model._pref(free[0])))
+            if exp:
+                for how in ('number', 'generator-that-fails'):
+                    ev.append(('fail', 'service-interfaces-not-a-list', how, model._pref(free[0])))
+                # a user link over a port of a service: that port already has its one peer
+                spn = [(raw.name(sorted(raw.owner(x))[0]), raw.name(x)) for x in raw.by_class(CP)
+                       if raw.typ(x) == 'ServicePort' and raw.owner(x) and not raw.owner(sorted(raw.owner(x))[0])]
+                for svc_name, port_name in sorted(spn)[:1]:
+                    ev.append(('fail', 'link-over-service-port', svc_name, port_name, model._pref(free[0])))
         ev.append(('fail', 'node-duplicate-name', n0))
         ev.append(('fail', 'node-duplicate-id', nodes[n0].node_id))
         ev.append(('fail', 'facility-duplicate-name', n0))
@@ -1498,6 +1530,21 @@ def _do_fail(model: TopoModel, ev):
         model.node(ev[2]).set_property('type', 'Garbage')
     elif kind == 'type-of-another-kind':
         model.node(ev[2]).set_property('type', fu.ComponentType.GPU)
+    elif kind == 'link-same-interface-twice':
+        i = model.port(*ev[2])
+        t.add_link(name='ltwice', node_id=nid('ltwice'), ltype=LinkType.Patch, interfaces=[i, i])
+    elif kind == 'link-over-service-port':
+        sp = [i for i in model.service(ev[2]).interface_list if i.name == ev[3]][0]
+        t.add_link(name='lsp', node_id=nid('lsp'), ltype=LinkType.Patch, interfaces=[sp, model.port(*ev[4])])
+    elif kind == 'service-interfaces-not-a-list':
+        if ev[2] == 'number':
+            arg = 5
+        else:
+            def gen(i=model.port(*ev[3])):
+                yield i
+                raise RuntimeError('the caller\'s generator failed')
+            arg = gen()
+        t.add_network_service(name='sgen', nstype=ServiceType.L2Bridge, interfaces=arg)
     elif kind == 'link-non-interface':
         t.add_link(name='lnode', node_id=nid('lnode'), ltype=LinkType.Patch, interfaces=[model.node(ev[2]), model.port(*ev[3])])
     elif kind == 'sub-duplicate-via-second-handle':
@@ -1585,7 +1632,8 @@ def _events_with_probes(self):
 GUARD_PROBES = {'node-duplicate-name', 'node-duplicate-id', 'facility-duplicate-name', 'switch-duplicate-name',
                 'service-duplicate-id', 'service-duplicate-name', 'component-duplicate-name', 'component-duplicate-id',
                 'storage-duplicate-name', 'sub-duplicate-name', 'sub-duplicate-vlan', 'peer-twice', 'link-duplicate-name',
-                'facility-duplicate-interface-names', 'type-outside-vocabulary', 'type-of-another-kind', 'link-non-interface',
+                'facility-duplicate-interface-names', 'type-outside-vocabulary', 'type-of-another-kind', 'link-non-interface', 'link-same-interface-twice',
+                'link-over-service-port', 'service-interfaces-not-a-list',
                 'sub-duplicate-via-second-handle', 'sub-service-interface-twice-one-handle'}
 
 
